@@ -143,6 +143,31 @@ def num_method(name, c):
             return mk_int(x.ty, z3.If(o, sat.z3(), r.z3()))
         if name in ("wrapping_add", "wrapping_sub", "wrapping_mul"):
             return int_binop({"wrapping_add": "Add", "wrapping_sub": "Sub", "wrapping_mul": "Mul"}[name], x, a[1])
+        if name in ("wrapping_div", "wrapping_rem", "wrapping_div_euclid", "wrapping_rem_euclid"):
+            y = a[1]
+            if not I.E.branch(b_not(int_binop("Eq", y, Int(y.ty, 0))), "divz"):
+                raise Panic(f"attempt to divide by zero ({name}) in {fr.fn.crate}::{fr.fn.name}")
+            if x.signed:
+                mn = Int(x.ty, 1 << (x.bits - 1))
+                if I.E.branch(b_and(int_binop("Eq", x, mn), int_binop("Eq", y, Int(y.ty, -1))), "minneg"):
+                    return mn if "div" in name else Int(x.ty, 0)
+            return int_binop("Div" if "div" in name else "Rem", x, y)
+        if name == "wrapping_neg":
+            return Int(x.ty, -x.v) if x.concrete else mk_int(x.ty, -x.v)
+        if name == "wrapping_abs":
+            if x.concrete: return Int(x.ty, abs(x.sval()))
+            return mk_int(x.ty, z3.If(x.v < 0, -x.v, x.v))
+        if name in ("wrapping_shl", "wrapping_shr"):
+            return int_binop("Shl" if name.endswith("shl") else "Shr", x, a[1])
+        if name in ("checked_neg",):
+            mn = Int(x.ty, 1 << (x.bits - 1))
+            if x.signed and I.E.branch(int_binop("Eq", x, mn), "negmin"): return st.none(I)
+            return st.some(I, Int(x.ty, -x.v) if x.concrete else mk_int(x.ty, -x.v))
+        if name in ("checked_abs",):
+            mn = Int(x.ty, 1 << (x.bits - 1))
+            if I.E.branch(int_binop("Eq", x, mn), "absmin"): return st.none(I)
+            if x.concrete: return st.some(I, Int(x.ty, abs(x.sval())))
+            return st.some(I, mk_int(x.ty, z3.If(x.v < 0, -x.v, x.v)))
         if name in ("overflowing_add", "overflowing_sub", "overflowing_mul"):
             r, o = int_overflow_op(name[12:].capitalize(), x, a[1])
             return Agg(None, [Cell(r), Cell(o)])
@@ -655,6 +680,9 @@ def ptr_method(head, name, plain):
         if name == "new_uninit": return Ptr(Cell(None), kind)
         if name == "box_assume_init_into_vec_unsafe":
             v = a[0].cell.v
+            # MaybeUninit { uninit, value: ManuallyDrop(MaybeDangling(array)) }
+            while isinstance(v, Agg):
+                v = v.cells[1].v if len(v.cells) > 1 and v.cells[1].v is not None else v.cells[0].v
             return Seq(list(v.cells), "vec") if isinstance(v, Seq) else v
         if name == "write":
             a[0].cell.v = a[1]; return a[0]
